@@ -61,23 +61,26 @@ def run(pid, tier, seed):
         forms = FORMS if tier == "thorough" else ["", rng.choice(FORMS[1:])]
         jobs = []
         for form in forms:
-            for (a, b) in wins:
-                jobs.append((form, a, b))
+            for wi_, (a, b) in enumerate(wins):
+                # the same instants, spelled differently (explicit offsets, zone-less under a non-UTC --tz-offset)
+                sp = gen.WINDOW_SPELLINGS[(wi_ + len(form)) % len(gen.WINDOW_SPELLINGS)] if (a or b) else gen.WINDOW_SPELLINGS[0]
+                jobs.append((form, a, b, sp))
+                if tier == "thorough" and (a or b):
+                    for sp2 in gen.WINDOW_SPELLINGS:
+                        if sp2 != sp:
+                            jobs.append((form, a, b, sp2))
         d = os.path.join(sc, "files")
         os.makedirs(d)
         for form in forms:
             shutil.copyfile(src + form, os.path.join(d, "k.evtx" + form))
 
         def do(ij):
-            i, (form, a, b) = ij
-            argv = ["--color", "never"]
-            if a:
-                argv += ["-a", cli(*a)]
-            if b:
-                argv += ["-b", cli(*b)]
+            i, (form, a, b, sp) = ij
+            argv = ["--color", "never"] + gen.window_argv(a, b, sp)
             tmp = os.path.join(sc, "tmp%d" % i)
             os.makedirs(tmp)
-            rr = common.run_s4(argv + ["k.evtx" + form], cwd=d, trace=(a is None and b is None), tmpdir=tmp, timeout=120)
+            rr = common.run_s4(argv + ["k.evtx" + form], cwd=d, trace=(a is None and b is None), tmpdir=tmp, timeout=120,
+                               tz_args=False)
             left = os.listdir(tmp)
             shutil.rmtree(tmp, ignore_errors=True)
             return rr, left
@@ -89,12 +92,12 @@ def run(pid, tier, seed):
         samples = []
         on_time = 0
         accepted = 0
-        for (form, a, b), (rr, left) in zip(jobs, runs):
+        for (form, a, b, sp), (rr, left) in zip(jobs, runs):
             want = [x["id"] for x in emit if (a is None or (x["secs"], x["nanos"]) >= a)
                     and (b is None or (x["secs"], x["nanos"]) <= b)]
             if (a in inst) or (b in inst):
                 on_time += 1
-            rec = {"kind": "c10", "form": form, "after": a, "before": b, "rc": rr.rc, "stderr": rr.err[-300:].decode(errors="replace")}
+            rec = {"kind": "c10", "form": form, "after": a, "before": b, "spelling": sp[0], "rc": rr.rc, "stderr": rr.err[-300:].decode(errors="replace")}
             if rr.crashed:
                 rep.violation("crash", "rc=%s" % rr.rc, rec)
                 continue
@@ -104,8 +107,8 @@ def run(pid, tier, seed):
                 sig = "order" if sorted(got) == sorted(want) else "selection"
                 rec.update({"got_head": got[:20], "want_head": want[:20]})
                 rep.violation("%s:%s" % (sig, form or "plain"),
-                              "evtx%s window [%s, %s]: printed %d records, expected %d (%d missing)"
-                              % (form, a, b, len(got), len(want), lost), rec)
+                              "evtx%s window [%s, %s] spelled %s: printed %d records, expected %d (%d missing)"
+                              % (form, a, b, sp[0], len(got), len(want), lost), rec)
             elif rr.rc != 0:
                 rep.violation("exit-status", "exit status %d" % rr.rc, rec)
             elif len(samples) < 3 and a is not None:
